@@ -48,6 +48,10 @@ func c10Alphabet(k int) []c10Sym {
 			c10Sym{"write-same", c, "A"}, c10Sym{"write-two", c, ""}, c10Sym{"write", c, "N"}, c10Sym{"sub", c, "N"})
 	}
 	a = append(a, c10Sym{"app-same", -1, "A"}, c10Sym{"app", -1, "N"})
+	// C = the bulb's On: another accessory's characteristic with the SAME instance id as A; nobody subscribes to it
+	a = append(a, c10Sym{"app", -1, "C"}, c10Sym{"write", 0, "C"})
+	// out-of-range values are clamped: a change only if the clamped value differs from the current one
+	a = append(a, c10Sym{"write-over-max", 0, "B"}, c10Sym{"app-over-max", -1, "B"}, c10Sym{"write-over-max", 1, "B"})
 	return a
 }
 
@@ -76,14 +80,16 @@ func (r *c10Run) ch(name string) (*characteristic.Characteristic, uint64) {
 		return r.b.Switch.Switch.On.Characteristic, r.b.Switch.Accessory.ID
 	case "B":
 		return r.b.Bulb.Lightbulb.Brightness.Characteristic, r.b.Bulb.Accessory.ID
+	case "C":
+		return r.b.Bulb.Lightbulb.On.Characteristic, r.b.Bulb.Accessory.ID
 	}
 	return r.b.NoEvent.Characteristic, r.b.Extra.ID
 }
 
 func (r *c10Run) other(name string) interface{} {
 	switch name {
-	case "A":
-		return !r.val["A"].(bool)
+	case "A", "C":
+		return !r.val[name].(bool)
 	default:
 		return (r.val[name].(int) + 7) % 100
 	}
@@ -193,6 +199,19 @@ func (r *c10Run) step(sym c10Sym) bool {
 		if sym.Op == "write" {
 			r.val[sym.Ch] = v
 			notify(sym.Ch, v, sym.Conn)
+		}
+	case "write-over-max", "app-over-max":
+		ch, aid := r.ch(sym.Ch)
+		if sym.Op == "write-over-max" {
+			if !put(sym.Conn, fmt.Sprintf(`{"characteristics":[{"aid":%d,"iid":%d,"value":250}]}`, aid, ch.ID)) {
+				return false
+			}
+		} else {
+			ch.UpdateValue(250)
+		}
+		if r.val[sym.Ch] != 100 { // clamped to the declared maximum 100
+			r.val[sym.Ch] = 100
+			notify(sym.Ch, 100, sym.Conn)
 		}
 	case "write-two":
 		chA, aidA := r.ch("A")
@@ -309,7 +328,7 @@ func c10Exec(c *fw.Ctx, k int, hist []c10Sym) bool {
 		return false
 	}
 	defer b.Close()
-	r := &c10Run{c: c, b: b, k: k, conns: make([]*refctl.Ctl, k), open: make([]bool, k), subs: map[string]bool{}, val: map[string]interface{}{"A": false, "B": 100, "N": 5}}
+	r := &c10Run{c: c, b: b, k: k, conns: make([]*refctl.Ctl, k), open: make([]bool, k), subs: map[string]bool{}, val: map[string]interface{}{"A": false, "B": 100, "N": 5, "C": false}}
 	failed := false
 	var names []string
 	for _, s := range hist {
@@ -368,7 +387,7 @@ func init() {
 	fw.Register(&fw.Check{
 		ID:    "C10",
 		Level: "model_checking",
-		Rule:  "every history of length 3 with 2 verified controller connections (quick) / length 4 with 2 and length 3 with 3 connections (thorough) over: subscribe, unsubscribe, changing write, non-changing write, a PUT writing two characteristics, application set (changing / non-changing), close, reconnect — on an observable bool of one accessory, an observable int of another and a characteristic without event permission; real transport over TCP with real pair-verify, fresh system per history. After EVERY event a barrier request on every open connection collects the EVENT messages that arrived; they must equal the reference model (subscription relation × value × open set): exactly one EVENT with the new value per subscribed other connection, none to the originator, to unsubscribed or closed ones, none for unchanged values or characteristics without event permission. A mismatch is re-checked after 20 ms and 500 ms before it counts. states = histories executed, distinct_nontrivial = distinct (event, characteristic, per-connection expected EVENT count pattern) classes",
+		Rule:  "every history of length 3 with 2 verified controller connections (quick) / length 4 with 2 and length 3 with 3 connections (thorough) over: subscribe, unsubscribe, changing write, non-changing write, a PUT writing two characteristics, application set (changing / non-changing), close, reconnect — on an observable bool of one accessory, an observable int of another, a characteristic without event permission, a second accessory's characteristic with the same instance id as the first, and out-of-range writes that are clamped; real transport over TCP with real pair-verify, fresh system per history. After EVERY event a barrier request on every open connection collects the EVENT messages that arrived; they must equal the reference model (subscription relation × value × open set): exactly one EVENT with the new value per subscribed other connection, none to the originator, to unsubscribed or closed ones, none for unchanged values or characteristics without event permission. A mismatch is re-checked after 20 ms and 500 ms before it counts. states = histories executed, distinct_nontrivial = distinct (event, characteristic, per-connection expected EVENT count pattern) classes",
 		Run:   c10Run1,
 		Replay: func(c *fw.Ctx, raw json.RawMessage) {
 			var cas c10Case
